@@ -233,7 +233,7 @@ var C04 = register(&HistProp{ID: "C04",
 				return ops[0]
 			}
 		}
-		return Mix{Recv: 12, Replay: 2, Send: 2, Dep: 3, Replace: 1, RepDep: 1, Admin: 4, Ledger: 2, Multi: 1, Restart: 3, Rollback: 3, AttProbe: 3,
+		return Mix{Recv: 12, Replay: 2, Send: 2, Dep: 3, Replace: 1, RepDep: 1, Admin: 4, Ledger: 2, Multi: 1, Restart: 5, Rollback: 3, AttProbe: 3,
 			RecvBroken: 25, DepValid: 80, ReplaceValid: 80, AdminHolder: 85, FaultPct: 4, AdminTypes: allAdmin}.next(g)
 	},
 	MinOps: 3, MaxOps: 30, New: func() Checker { return &c04{} },
@@ -545,7 +545,8 @@ func (c *c06) Step(w *sim.World, s *sim.Step) *Viol {
 				return v
 			}
 			n, _ := respNonce(s.Res.Resps[i])
-			body, _ := refcodec.EncodeBurn(&refcodec.Burn{Version: 0, BurnToken: attest.Keccak([]byte(strings.ToLower(tok))), MintRecip: mr, Amount: amt, MsgSender: fromPad})
+			body, _ := refcodec.EncodeBurn(&refcodec.Burn{Version: 0, BurnToken: attest.Keccak([]byte(strings.ToLower(s.Pre.L.Denom))), MintRecip: mr, Amount: amt, MsgSender: fromPad})
+			_ = tok // the burn token of the message is that of the minting denom, however the request spelled it
 			if v := cmpMsg("C06", s.Idx, "message emitted by deposit-for-burn", sm.Msg, 0, 4, dom, n, modPad, s.Pre.Msgrs[dom], zero32OrSame(caller), body); v != nil {
 				return v
 			}
